@@ -162,13 +162,19 @@ def main(argv):
         samples = []
         cmds = []
         solver_s = 0.0
+        bounded_native = []
         for rep in reps:
             if rep['status'] != 'ok':
                 inconcl.append((rep['unit'], rep.get('reason', '')))
             for r in rep['checks']:
-                total += r['obligations']
+                if r['mode'] == 'native_bounded':
+                    # a bounded stand-in is reported, never counted as proved
+                    bounded_native.append('%s/%s: %d inputs enumerated, %d clauses checked on each, %d failed' % (
+                        rep['unit'], r['check'], r.get('enumerated_inputs', 0), r['obligations'], len(r['violations'])))
+                else:
+                    total += r['obligations']
+                    discharged += r['obligations'] - len(r['violations'] + r['inconclusive'])
                 bad = r['violations'] + r['inconclusive']
-                discharged += r['obligations'] - len(bad)
                 solver_s += r['solver_s']
                 cmds.append(r['checker_cmd'])
                 for x in r['inconclusive']:
@@ -209,6 +215,7 @@ def main(argv):
                 'mirror': mrep,
                 'units': [strip_unit(rep) for rep in reps],
                 'bounded_units': [rep['unit'] + ': ' + rep.get('bound_note', '') for rep in reps if rep.get('bounded')],
+                'bounded_native_checks_not_counted_as_proved': bounded_native,
                 'known_findings_hit': [k[0].get('text') for k in knownhits],
                 'obligations_excluded_as_known_findings': ['%s/%s %s' % (u, c, v.get('property')) for k, u, c, v in knownhits],
                 'inconclusive': ['%s: %s' % x for x in inconcl],
